@@ -14,6 +14,19 @@ UNITS = [
                    Rw("    use std::time::Duration;\n", "\n", why="Duration constant not used by the verified units"),
                    Rw(r"(\s*///[^\n]*\n)*\s*pub const MAX_AGE[^;]*;", "", regex=True, why="Duration constant not used by the verified units")]),
     Unit(name="Indexer", file=IX, kind="type", anchor="pub struct Indexer<BE>"),
+    Unit(name="indexer_new", file=IX, anchor="pub fn new(be: BE) -> Self", within="impl<BE: DecryptWriteBackend> Indexer<BE> {", ret_name="r", **W,
+         functions=["index::indexer::Indexer::new"],
+         contract="\n    ensures /*@new_has_empty_dedup_set*/ r.indexed matches Some(s) && s.s@ == Set::<(BlobType, BlobId)>::empty() && r.count == 0,\n"),
+    Unit(name="indexer_new_unindexed", file=IX, anchor="pub fn new_unindexed(be: BE) -> Self", within="impl<BE: DecryptWriteBackend> Indexer<BE> {", ret_name="r", **W,
+         functions=["index::indexer::Indexer::new_unindexed"],
+         contract="\n    ensures /*@new_unindexed_has_no_dedup_set*/ r.indexed is None && r.count == 0,\n"),
+    Unit(name="indexer_reset", file=IX, anchor="pub fn reset(&mut self)", within="impl<BE: DecryptWriteBackend> Indexer<BE> {", **W,
+         functions=["index::indexer::Indexer::reset"],
+         contract="""
+    ensures
+        /*@reset_keeps_dedup_memory*/ final(self).indexed == old(self).indexed,
+        /*@reset_clears_counter*/ final(self).count == 0,
+"""),
     Unit(name="add_with", file=IX, anchor="pub fn add_with(&mut self, pack: IndexPack, delete: bool) -> RusticResult<()>", within="impl<BE: DecryptWriteBackend> Indexer<BE> {", ret_name="r", **W,
          functions=["index::indexer::Indexer::add_with"],
          rewrites=[
